@@ -234,6 +234,43 @@ Definition chk_tryid (c : list Z * Z * oclass * bool) : bool :=
 Definition ids_contiguous (ids : list Z) : bool :=
   forallb (fun i => existsb (Z.eqb (Z.of_nat i)) ids) (seq 0 (length ids)).
 
+(* ---------------------------------------------------------------- statistics epoch under a forced schedule
+   The driver parks every thread in front of each lock it takes (while holding none) and lets one thread at a time
+   run one lock-protected region: that is one step of the schedule; afterwards every thread runs to its end, in
+   order.  Compared: the outcome (0 returned normally, 1 panic, 2 hang or a lock left behind), and -- when every thread
+   of the running code had as many regions as its program in the model -- the counters left under each worker's keys. *)
+Definition sections_match (ks : list tkind) (secs : list N) : bool :=
+  Nat.eqb (length ks) (length secs) &&
+  forallb (fun p => N.eqb (N.of_nat (length (prog_of (fst p)))) (snd p)) (combine ks secs).
+
+Definition counts_of (s : sstate) (k : tkind) : option N * option N * option N :=
+  match k with
+  | TWorker regs =>
+      match last (map Some regs) None with
+      | Some (g, t, l) => (sm_get (s_gen s) g, sm_get (s_tt s) t, sm_get (s_lv s) l)
+      | None => (None, None, None)
+      end
+  | _ => (None, None, None)
+  end.
+
+Definition oN_eqb (a b : option N) : bool :=
+  match a, b with Some x, Some y => N.eqb x y | None, None => true | _, _ => false end.
+
+Fixpoint counts_eqb (a b : list (option N * option N * option N)) : bool :=
+  match a, b with
+  | [], [] => true
+  | (x1, y1, z1) :: r, (x2, y2, z2) :: r' => oN_eqb x1 x2 && oN_eqb y1 y2 && oN_eqb z1 z2 && counts_eqb r r'
+  | _, _ => false
+  end.
+
+Definition chk_stats (c : list tkind * list nat * list N * N * list (option N * option N * option N)) : bool :=
+  let '(ks, sched, secs, out, counts) := c in
+  match run_all sched (map thread_of ks) s_empty with
+  | Ok s => N.eqb out 0 && (if sections_match ks secs then counts_eqb (map (counts_of s) ks) counts else true)
+  | Panic => N.eqb out 1
+  | Err _ => false
+  end.
+
 (* ---------------------------------------------------------------- all entry points in one case type *)
 Inductive anycase :=
   | AParams (c : trk * N * option anyv * oclass * oclass * N)
@@ -255,7 +292,8 @@ Inductive anycase :=
   | AMarkMac (c : Z * Z * Z * Z * bool * option Z * oclass * Z)
   | AObfs4 (c : list oreg * bytes * oclass)
   | ADnsMsg (c : bytes * oclass * N * msg_obs)
-  | ADnsRecv (c : name * N * list (option bytes) * bytes * oclass * (N * N * N * N * bytes)).
+  | ADnsRecv (c : name * N * list (option bytes) * bytes * oclass * (N * N * N * N * bytes))
+  | AStats (c : list tkind * list nat * list N * N * list (option N * option N * option N)).
 
 Definition chk (a : anycase) : bool :=
   match a with
@@ -265,5 +303,5 @@ Definition chk (a : anycase) : bool :=
   | ATryId c => chk_tryid c | AWorker c => chk_worker c | ARawReg c => chk_rawreg c | ADtlsConn c => chk_dtlsconn c
   | ADnsProc c => chk_dnsproc c | AMin c => chk_min c | APrefix c => chk_prefix c
   | AMarkMac c => chk_markmac c | AObfs4 c => chk_obfs4 c | ADnsMsg c => chk_dnsmsg c
-  | ADnsRecv c => chk_dnsrecv c
+  | ADnsRecv c => chk_dnsrecv c | AStats c => chk_stats c
   end.
